@@ -17,7 +17,8 @@ MISMATCHES = "mismatches_C11"
 VIOLATIONS = "violations_C11"
 KNOWN = "known_C11"
 SHARD = 60
-RULE = ("scenarios: operation {init, re-key via sp[k]=v, re-key via update_statepoint, move, clone, remove, clear} x "
+RULE = ("scenarios: operation {init, re-key via sp[k]=v, re-key via update_statepoint, re-key via `job.statepoint = {...}` "
+        "through a by-id handle that never read its state point, move, clone, remove, clear} x "
         "destination {fresh, existing valid, colliding with another job, empty directory under the new id, directory "
         "without / with torn / with foreign state point file, the md5(\"null\") directory holding a null state point} x payload {none, nested files + document} x JSON thread "
         "support {on (default), off}, run on the real signac on a copy of a template workspace that also holds two "
@@ -173,6 +174,10 @@ def prepare(scn, root):
         job = pa.open_job(id=ida)
     if op == "rekey":
         nsp = new_sp_of(scn)
+        if scn.get("route") == "assign":
+            # whole assignment through a handle opened BY ID on a state point cache miss that has NOT read its state
+            # point: the setter builds an empty _StatePointDict and resets it, nothing is loaded first
+            return (lambda: setattr(job, "statepoint", dict(nsp))), job
         if scn.get("route") == "update":
             upd = {k: v for k, v in nsp.items() if SP_A.get(k, None) != v}
             return (lambda: job.update_statepoint(upd, overwrite=True)), job
@@ -440,9 +445,17 @@ def run_op(scn, template, work, name, fault=None, fault2=None):
     return root, pre, ip, events, exc
 
 
+_CLEAN = {}      # the tree the fault-free run of the current scenario left (None when that run raised)
+
+
 def case_of(L, scn, thr, pre, probe, desc, obs, nontrivial, kinds):
-    coq = ("{| k_atomic := %s; k_ftab := []; k_op := %s; k_wss := %s; k_pre := %s; k_probe := %s |}" % (
-        coq_bool(thr), coq_op(L, scn), coq_list([L.path(w) for w in wss_of(scn)], "path"), L.tree(pre), probe))
+    clean = _CLEAN.get("snap")
+    coq = ("{| k_atomic := %s; k_ftab := []; k_op := %s; k_wss := %s; k_pre := %s; k_probe := %s; k_noload := %s; "
+           "k_clean := %s |}" % (
+        coq_bool(thr), coq_op(L, scn), coq_list([L.path(w) for w in wss_of(scn)], "path"), L.tree(pre), probe,
+        coq_bool(scn.get("route") == "assign"), coq_opt(None if clean is None else L.tree(clean))))
+    if clean is not None and isinstance(obs, dict) and obs.get("outcome", 0) is None and "tree" in obs:
+        obs["fault_free_tree"] = brief_tree(clean)
     return Case(coq, desc, obs=obs, nontrivial=nontrivial, key=json.dumps(desc, sort_keys=True), kinds=kinds,
                 prelude=L.items())
 
@@ -470,6 +483,8 @@ def run_scenario(desc, work):
         # ---------------- clean run: trace, crash states
         root, pre, ip, events, exc = run_op(scn, template, work, "clean")
         broken = ip.check_complete(work)
+        # reference for "an injected error that was swallowed must leave the fault-free result"
+        _CLEAN["snap"] = snapshot(root) if exc is None else None
         if probe in ("all", "crash"):
             L = Lit()
             states, labels, last = [], [], None
@@ -518,23 +533,12 @@ def run_scenario(desc, work):
         else:
             plan = []
         clean_out = None if exc is None else exn_name(exc)
+        done_faults = set()
         for idx, (s, n, en) in enumerate(plan):
             eno = dict(ERRNOS)[en]
             root, pre_f, ipf, ev_f, exc_f = run_op(scn, template, work, "f%d" % idx, fault=(s, n, eno))
-            snap, ws = observe(root)
-            shutil.rmtree(root, ignore_errors=True)
-            L = Lit()
-            out = None if exc_f is None else exn_name(exc_f)
-            sig = "{| sg_kind := %s; sg_p := %s; sg_q := %s |}" % (s[0], L.path(list(s[1])), L.path(list(s[2])))
-            pr = "(PFault %s %s %s %s %s)" % (sig, coq_nat(n), en, coq_opt(out), L.fobs(snap, ws))
-            fired = bool(ipf.injected)
-            obs = {"outcome": out, "clean_outcome": clean_out, "fault_fired": fired,
-                   "calls_after_fault": [e[2] + " " + "/".join(e[0][1]) for e in ev_f][-6:],
-                   "tree": brief_tree(snap), "projects": brief_ws(ws),
-                   "tree_changed": deep_key(snap) != deep_key(pre_f)}
-            fd = {"scn": scn, "probe": {"fault": [s[0], list(s[1]), list(s[2]), n, en]}}
-            cases.append(case_of(L, scn, thr, pre_f, pr, fd, obs, out != clean_out or obs["tree_changed"],
-                                 kinds0 + ["fault", en, s[0]]))
+            done_faults.add((s, n, en))
+            cases.append(fault_case(scn, thr, kinds0, (s, n, en), root, pre_f, ipf, ev_f, exc_f, clean_out))
             # ---- a second fault later in the same run (sampled)
             later = ev_f[ipf.fired_at + 1:] if ipf.fired_at is not None else []
             for j in desc.get("pick2", {}).get(str(idx), []):
@@ -570,7 +574,7 @@ def run_scenario(desc, work):
             a, fo_name = probe["follow"]
             fplan = [(((a[0], tuple(a[1]), tuple(a[2])), a[3], a[4]), fo_name)]
         for f1, fo_name in fplan:
-            cse = follow_case(scn, thr, template, work, kinds0, f1, fo_name)
+            cse = follow_case(scn, thr, template, work, kinds0, f1, fo_name, clean_out, done_faults)
             if cse is not None:
                 cases.append(cse)
         if isinstance(probe, dict) and "fault2" in probe:
@@ -581,6 +585,24 @@ def run_scenario(desc, work):
     finally:
         set_threads(True)
     return cases
+
+
+def fault_case(scn, thr, kinds0, f1, root, pre_f, ipf, ev_f, exc_f, clean_out):
+    """One injected fault: the exception class seen by the caller and the recovery observation.  Removes root."""
+    (s, n, en) = f1
+    snap, ws = observe(root)
+    shutil.rmtree(root, ignore_errors=True)
+    L = Lit()
+    out = None if exc_f is None else exn_name(exc_f)
+    sig = "{| sg_kind := %s; sg_p := %s; sg_q := %s |}" % (s[0], L.path(list(s[1])), L.path(list(s[2])))
+    pr = "(PFault %s %s %s %s %s)" % (sig, coq_nat(n), en, coq_opt(out), L.fobs(snap, ws))
+    fired = bool(ipf.injected)
+    obs = {"outcome": out, "clean_outcome": clean_out, "fault_fired": fired,
+           "calls_after_fault": [e[2] + " " + "/".join(e[0][1]) for e in ev_f][-6:],
+           "tree": brief_tree(snap), "projects": brief_ws(ws),
+           "tree_changed": deep_key(snap) != deep_key(pre_f)}
+    fd = {"scn": scn, "probe": {"fault": [s[0], list(s[1]), list(s[2]), n, en]}}
+    return case_of(L, scn, thr, pre_f, pr, fd, obs, out != clean_out or obs["tree_changed"], kinds0 + ["fault", en, s[0]])
 
 
 FOLLOW = {"set": ["set", "q", 9], "doc": ["doc", "fk", 1], "init": ["init"]}
@@ -598,11 +620,17 @@ def coq_fop(L, fo):
     return "FInit"
 
 
-def follow_case(scn, thr, template, work, kinds0, f1, fo_name):
+def follow_case(scn, thr, template, work, kinds0, f1, fo_name, clean_out=None, done_faults=None):
     """A handled fault, then a follow-up operation through the SAME handle, then a restart (fresh Project)."""
     (s, n, en) = f1
     fo = FOLLOW[fo_name]
     root, pre_f, ipf, ev_f, exc1 = run_op(scn, template, work, "h", fault=(s, n, dict(ERRNOS)[en]))
+    if exc1 is None and ipf.injected and done_faults is not None and f1 not in done_faults:
+        # the injected error was SWALLOWED (the operation returned normally): nothing to follow up, but the run is
+        # judged as a single-fault case (an error that is swallowed must leave the fault-free result) - so that every
+        # mutating call is covered deterministically, not only by the seeded sample of fault positions
+        done_faults.add(f1)
+        return fault_case(scn, thr, kinds0, f1, root, pre_f, ipf, ev_f, exc1, clean_out)
     if exc1 is None or not ipf.injected:
         shutil.rmtree(root, ignore_errors=True)
         return None                       # not a handled error: nothing to follow up
@@ -666,6 +694,9 @@ def scenarios():
         for route in ("setitem", "update"):
             for dest in ("fresh", "collide", "emptydir"):
                 out.append({"op": "rekey", "dest": dest, "route": route, "threads": thr})
+        # job.statepoint = {...} through a by-id handle that never read its state point (no load before the protocol)
+        for dest in ("fresh", "collide") + (("emptydir",) if thr else ()):
+            out.append({"op": "rekey", "dest": dest, "route": "assign", "threads": thr})
         out.append({"op": "rekey", "dest": "fresh", "route": "setitem", "threads": thr, "payload": False})
         for op in ("move", "clone"):
             for dest in ("fresh", "collide", "emptydir"):
